@@ -60,7 +60,7 @@ Section Model.
     | PowerLaw eu E0 g => pl_call N (to_self efac pl_call_conv (pl_call_scale N) unit eu E) E0 g
     | Cutoff eu E0 g Ec =>
         let E' := to_self efac co_call_conv (nmul N) unit eu E in
-        co_factor N (pl_call N E' E0 g) E' Ec          (* super().__call__(E=E', unit=None) *)
+        co_factor N (co_super N (pl_call N E' E0 g)) E' Ec   (* super().__call__(E=E', unit=None): converted once *)
     | LogPar eu E0 a b => lp_call N (to_self efac lp_call_conv (nmul N) unit eu E) E0 a b
     | FuncE eu f => f (to_self efac fn_call_conv (nmul N) unit eu E)
     end.
@@ -79,6 +79,22 @@ Section Model.
         Some (pl_integral E0 g (to_self efac pl_int_conv (pl_int_scale1 N) unit eu E1)
                                (to_self efac pl_int_conv (pl_int_scale2 N) unit eu E2))
     | _ => None
+    end.
+
+  (* the generic EnergyFluxProfile.get_integral: scipy quad (the oracle Q) applied to the profile's
+     own __call__ in its own unit, between the converted bounds *)
+  Definition gen_integral (Q : (T -> T) -> T -> T -> T) (p : eprof) (unit : option Z) (E1 E2 : T) : T :=
+    gen_int_quad N
+      (Q (fun E => gen_int_integrand N (e_call p None E))
+         (to_self efac gen_int_conv (gen_int_scale1 N) unit (e_unit p) E1)
+         (to_self efac gen_int_conv (gen_int_scale2 N) unit (e_unit p) E2)).
+  (* get_integral of every energy profile, given the quadrature oracle *)
+  Definition e_int_q (Q : (T -> T) -> T -> T -> T) (p : eprof) (unit : option Z) (E1 E2 : T) : T :=
+    match p with
+    | Cutoff _ _ _ _ => co_int_delegate N (gen_integral Q p unit E1 E2)
+    | LogPar _ _ _ _ => lp_int_delegate N (gen_integral Q p unit E1 E2)
+    | FuncE _ _ => gen_integral Q p unit E1 E2
+    | _ => match e_int p unit E1 E2 with Some v => v | None => nzero N end
     end.
 
   Definition e_names (p : eprof) : list pname :=
@@ -161,6 +177,20 @@ Section Model.
     let t' := to_self tfac box_cdf_conv (nmul N) unit tu t in
     if box_cdf_m1 N t' te then none N
     else if box_cdf_m0 N t' ts te then box_cdf_val N t' ts te else nzero N.
+
+  (* GaussianTimeFluxProfile.cdf: zeros; [m0] := I(t_start, t) / total; [m1] := 1 *)
+  Definition gauss_cdf (tu : Z) (ts te sg tol : T) (unit : option Z) (t : T) : T :=
+    let p := Gauss tu ts te sg tol in
+    let t' := to_self tfac ga_cdf_conv (nmul N) unit tu t in
+    if ga_cdf_m1 N t' te then none N
+    else if ga_cdf_m0 N t' ts te then ga_cdf_val N (t_int p None ts t') (t_total p) else nzero N.
+  (* cdf of a time profile (the unity profile has none) *)
+  Definition t_cdf (p : tprof) (unit : option Z) (t : T) : option T :=
+    match p with
+    | UnityT _ _ _ => None
+    | Box tu ts te => Some (box_cdf tu ts te unit t)
+    | Gauss tu ts te sg tol => Some (gauss_cdf tu ts te sg tol unit t)
+    end.
 
   Definition t_move (p : tprof) (dt : T) (unit : option Z) : tprof :=
     match p with
@@ -295,6 +325,31 @@ Section Model.
         let ev := match E with Some x => e_call ep eu x | None => none N end in
         let tv := match t with Some x => t_call tp tu x | None => none N end in
         Ok (ffm_flux N Phi0 sv ev tv)
+    | _ => Err TypeError
+    end.
+
+  (* __call__ on array arguments: the (Ncoord, Nenergy, Ntime) outer product; an absent argument
+     contributes the one-element array [1] *)
+  Definition ffm_call_arr (s : store) (l : nat) (rd : option (list (T * T))) (E t : option (list T))
+             (eu tu : option Z) : res (list (list (list T))) :=
+    match nth_error s l with
+    | Some (OM Phi0 ls le lt) =>
+        do sp <- get_s s ls; do ep <- get_e s le; do tp <- get_t s lt;
+        let sv := match rd with Some xs => map (fun x => s_call sp (fst x) (snd x)) xs | None => [none N] end in
+        let ev := match E with Some xs => map (e_call ep eu) xs | None => [none N] end in
+        let tv := match t with Some xs => map (t_call tp tu) xs | None => [none N] end in
+        Ok (map (fun a => map (fun b => map (fun c => ffm_flux N Phi0 a b c) tv) ev) sv)
+    | _ => Err TypeError
+    end.
+
+  (* to_internal_flux_unit: 1/(angle^2 energy length^2 time) expressed in the internal units
+     (rad, GeV, cm, s); angle and length units are the internal ones here *)
+  Definition to_internal (eu tu : Z) : T :=
+    ndiv N (none N) (nmul N (conv efac eu 0) (conv tfac tu 0)).
+  Definition ffm_to_internal (s : store) (l : nat) : res T :=
+    match nth_error s l with
+    | Some (OM _ ls le lt) =>
+        do ep <- get_e s le; do tp <- get_t s lt; Ok (to_internal (e_unit ep) (t_unit tp))
     | _ => Err TypeError
     end.
 
